@@ -49,7 +49,7 @@ func newEngine(prog *ssa.Program, spkgs []*ssa.Package) *Engine {
 	if os.Getenv("GOVC_TRACE") != "" {
 		w = 1
 	}
-	return &Engine{prune: true, workers: w, prog: prog, pkgs: spkgs, loops: map[string]map[int]*LoopAnn{}, heapSorts: map[string]string{}, opaque: map[string]bool{}, contracts: map[string]*Contract{}, siteOrd: map[ssa.Instruction]int{}}
+	return &Engine{prune: true, workers: w, prog: prog, pkgs: spkgs, loops: map[string]map[int]*LoopAnn{}, heapSorts: map[string]string{}, opaque: map[string]bool{}, contracts: map[string]*Contract{}, ifaceContracts: map[string]*Contract{}, siteOrd: map[ssa.Instruction]int{}}
 }
 
 func workerCount() int {
